@@ -145,6 +145,8 @@ struct State {
     cursor: Cursor,
     is_integer_variable: bool,
     is_waiting_objsense_line: bool,
+    /// N rows other than the objective: free rows, whose entries are ignored
+    free_rows: HashSet<RowName>,
     mps: Mps,
 }
 
@@ -177,6 +179,8 @@ impl State {
             "N" => {
                 if self.mps.objective_name.is_empty() {
                     self.mps.objective_name = row_name
+                } else if row_name != self.mps.objective_name {
+                    self.free_rows.insert(row_name);
                 }
                 // skip adding this row to `a` matrix
                 return Ok(());
@@ -236,6 +240,9 @@ impl State {
             let coefficient = chunk[1].parse()?;
             if row_name == self.mps.objective_name {
                 self.mps.c.insert(col_name.clone(), coefficient);
+            } else if self.free_rows.contains(&row_name) {
+                // entries of a free (N) row that is not the objective are ignored
+                continue;
             } else {
                 self.mps
                     .a
